@@ -1,5 +1,13 @@
 """C01 — script functions mean the same eagerly, as a graph, and as Python."""
-MODULES = ["contracts.c01_analysis"]
+import re
+
+MODULES = ["contracts.c01_analysis", "contracts.c01_converter"]
+
+
+def INCLUDE(name):
+    m = re.match(r"(C\d\d)\.", name)
+    return m is None or m.group(1) == "C01"
+
 
 ANALYSIS_CORPUS = [
     "def f(x, t):\n    y = op.Add(x, B=t * 2.0)\n    return y\n",
@@ -9,11 +17,63 @@ ANALYSIS_CORPUS = [
     "def f(X, c):\n    if c:\n        y = X\n    else:\n        y = X + X\n    return y\n",
     "def f(X, n):\n    a = X\n    b = X\n    for i in range(n):\n        a, b = op.Split(a + b)\n        if b:\n            break\n    return a\n",
     "def f(X):\n    y: FLOAT = X + 1\n    z = op.Foo(y, [X, y], axis=k)\n    return z, y\n",
+    "def f(X, c):\n    a = X\n    b = X\n    while c:\n        if c:\n            a = b + 1\n            b = a + X\n        else:\n            a = b\n            b = X\n        c = a < b\n    return b\n",
 ]
+
+LOOP_REPLAY = '''
+import sys, os, subprocess, tempfile, textwrap
+SRC = textwrap.dedent("""
+    import sys
+    import numpy as np
+    from onnxscript import script, opset18 as op, FLOAT, INT64
+    import onnxruntime as ort
+    @script(default_opset=op)
+    def f(X: FLOAT[1], n: INT64) -> FLOAT[1]:
+        a = X + 1.0
+        b = X + 2.0
+        c = X + 3.0
+        d = X + 4.0
+        e = X + 5.0
+        for i in range(n):
+            a = a * 1.0
+            b = b * 1.0
+            c = c * 1.0
+            d = d * 1.0
+            e = e * 1.0
+        return a * 10000.0 + b * 1000.0 + c * 100.0 + d * 10.0 + e
+    X = np.zeros(1, dtype=np.float32); n = np.array(2, dtype=np.int64)
+    m = f.to_model_proto()
+    g = ort.InferenceSession(m.SerializeToString(), providers=["CPUExecutionProvider"]).run(None, {"X": X, "n": n})[0]
+    e = f(X, n)
+    import hashlib
+    print("RESULT", float(g[0]), float(np.asarray(e)[0]), hashlib.sha256(m.SerializeToString()).hexdigest()[:16])
+""")
+d = tempfile.mkdtemp()
+p = os.path.join(d, "prog.py")
+open(p, "w").write(SRC)
+bad = 0
+digests = set()
+for seed in ("0", "1", "2", "3", "7"):
+    out = subprocess.run([sys.executable, p], capture_output=True, text=True, env={**os.environ, "PYTHONHASHSEED": seed}).stdout
+    line = [l for l in out.splitlines() if l.startswith("RESULT")]
+    if not line:
+        continue
+    _, g, e, dg = line[0].split()
+    digests.add(dg)
+    if float(g) != 12345.0 or float(e) != 12345.0:
+        bad += 1
+        print(f"PYTHONHASHSEED={seed}: loop with 5 loop-carried variables: graph returns {g}, eager {e}, Python semantics 12345.0")
+if MODE == "determinism" and len(digests) > 1:
+    bad += 1
+    print("to_model_proto() bytes differ across PYTHONHASHSEED values:", sorted(digests))
+sys.exit(1 if bad else 0)
+'''
 
 
 def replay(ob):
     name = ob["name"]
+    if ".converter.loop" in name or ".converter.if" in name:
+        return "MODE = 'alignment'\n" + LOOP_REPLAY
     if ".analysis." in name or name.startswith("AstAnalyzer.") or name.startswith("_used_vars"):
         return (
             "import sys\nsys.path.insert(0, '/verif')\n"
